@@ -280,6 +280,30 @@ def g_validate_data(repo):
     return g
 
 
+def g_structured(repo):
+    """C06: exit code fold of CommonStructuredReporter::report (structured validate, JSON / YAML / SARIF)"""
+    g = GroupBuild('structured', repo)
+    g.raw('prelude_common.rs')
+    g.raw('prelude_validate.rs')
+    V = CMD + 'validate.rs'
+    S = CMD + 'reporters/validate/structured.rs'
+    g.type(RULES + 'errors.rs', 'Error', derive=None, opaque_payloads='ExtError')
+    g.type(RULES + 'mod.rs', 'Status')
+    g.type(V, 'Type')
+    g.type(V, 'OutputFormatType')
+    g.type(V, 'DataFile', derive=None)
+    for c in ('FAILURE_STATUS_CODE', 'SUCCESS_STATUS_CODE', 'ERROR_STATUS_CODE'):
+        g.const(CMD + 'mod.rs', c)
+    g.raw('spec_validate.rs')
+    g.raw('prelude_validate_data.rs')
+    g.raw('prelude_structured.rs')
+    g.type(S, 'CommonStructuredReporter', derive=None, extra_subst=[('crate::utils::writer::Writer', 'Writer')] + [
+        ('    %s: ' % n, '    pub %s: ' % n) for n in ('rules', 'data', 'writer', 'exit_code', 'output')])
+    g.fn('U-sreport', S, 'report', impl=r"StructuredReporter for CommonStructuredReporter<'reporter>", spec='structured_report.spec',
+         wrap_impl="impl<'reporter> CommonStructuredReporter<'reporter>", props=['C06', 'C08'])
+    return g
+
+
 def g_tracker(repo):
     g = GroupBuild('tracker', repo)
     g.raw('prelude_common.rs')
@@ -365,4 +389,4 @@ def g_tables(repo):
     return g
 
 
-GROUPS = {'validate_data': g_validate_data, 'memo': g_memo, 'memo_block': g_memo_block, 'compare': g_compare, 'tables': g_tables, 'index2': g_index2, 'index': g_index, 'tracker': g_tracker, 'validate': g_validate, 'eval_blocks': g_eval_blocks, 'report': g_report, 'merge': g_merge, 'status': g_status, 'exit': g_exit, 'eval': g_eval, 'eval_disp': g_eval_disp}
+GROUPS = {'structured': g_structured, 'validate_data': g_validate_data, 'memo': g_memo, 'memo_block': g_memo_block, 'compare': g_compare, 'tables': g_tables, 'index2': g_index2, 'index': g_index, 'tracker': g_tracker, 'validate': g_validate, 'eval_blocks': g_eval_blocks, 'report': g_report, 'merge': g_merge, 'status': g_status, 'exit': g_exit, 'eval': g_eval, 'eval_disp': g_eval_disp}
